@@ -9,9 +9,9 @@ import (
 	"encoding/base64"
 	"encoding/json"
 	"fmt"
-	"io"
 	"os"
 	"sort"
+	"strings"
 	"time"
 
 	"github.com/tinode/chat/server/auth"
@@ -74,10 +74,7 @@ func procInit(cfg SimConfig) {
 	}
 	procInitDone = true
 	simCfg = cfg
-	logs.Init(io.Discard, "stdFlags")
-	if os.Getenv("SIM_LOG") != "" {
-		logs.Init(os.Stderr, "stdFlags")
-	}
+	logs.Init(simLog, "stdFlags")
 	simAdapter = simdb.New()
 	store.RegisterAdapter(simAdapter)
 	push.Register("simpush", simPush)
@@ -346,3 +343,29 @@ func curEv() int {
 	}
 	return 0
 }
+
+// logScanner receives the server's log output: counts overload messages per run, optionally echoes to stderr.
+type logScanner struct {
+	counts map[string]int
+	echo   bool
+}
+
+var simLog = &logScanner{counts: map[string]int{}, echo: os.Getenv("SIM_LOG") != ""}
+
+var logPhrases = []string{"queue full", "queue2 full", "channel full", "queue is full", "connection stuck", "ERROR"}
+
+func (l *logScanner) Write(p []byte) (int, error) {
+	s := string(p)
+	for _, ph := range logPhrases {
+		if strings.Contains(s, ph) {
+			l.counts[ph]++
+		}
+	}
+	if l.echo {
+		os.Stderr.Write(p)
+	}
+	return len(p), nil
+}
+
+func (l *logScanner) count(phrase string) int { return l.counts[phrase] }
+func (l *logScanner) reset()                  { l.counts = map[string]int{} }
